@@ -50,11 +50,11 @@ MSGLEN = 18
 
 # the schedules of the proved counterexample theorems in lean/MpVerif/C15/Props.lean (replayed on the real code)
 ALL_COUNTEREXAMPLES = [   # (theorem, case, expected oracle class, layout aspect it is about)
-    ('C15_counterexample_lost_in_ctor_window', 'bsd C W | 5:I', 'ctor-window:lost', 'ctor'),
-    ('C15_counterexample_mispaired_first_registration', 'bsd C R:1:1 | 8:I', 'sethandler-window:mispaired:new-callback-old-data', 'reg'),
-    ('C15_counterexample_mispaired_reregistration', 'bsd C R:1:1 R:2:2 | 10:I', 'sethandler-window:mispaired:new-callback-old-data', 'reg'),
-    ('C15_counterexample_third_no_exit_ctor_window', 'bsd C W | 5:I 7:I 7:I', 'ctor-window:third-no-exit', 'ctor'),
-    ('C15_counterexample_early_exit_ctor_window', 'bsd C W | 5:I 5:I', 'ctor-window:early-exit', 'ctor'),
+    ('C15_oldorder_counterexample_lost_in_ctor_window', 'bsd C W | 5:I', 'ctor-window:lost', 'ctor'),
+    ('C15_oldorder_counterexample_mispaired_first_registration', 'bsd C R:1:1 | 8:I', 'sethandler-window:mispaired:new-callback-old-data', 'reg'),
+    ('C15_oldorder_counterexample_mispaired_reregistration', 'bsd C R:1:1 R:2:2 | 10:I', 'sethandler-window:mispaired:new-callback-old-data', 'reg'),
+    ('C15_oldorder_counterexample_third_no_exit_ctor_window', 'bsd C W | 5:I 7:I 7:I', 'ctor-window:third-no-exit', 'ctor'),
+    ('C15_oldorder_counterexample_early_exit_ctor_window', 'bsd C W | 5:I 5:I', 'ctor-window:early-exit', 'ctor'),
     ('C15_counterexample_third_no_exit_across_teardown', 'bsd C W D W | 8:I 8:I 13:I', 'across-teardown:third-no-exit', 'any'),
 ]
 COUNTEREXAMPLES = [c[:3] for c in ALL_COUNTEREXAMPLES]
@@ -461,7 +461,8 @@ def first_diff(a, b):
     return None
 
 
-N_THEOREMS = 22
+N_THEOREMS = 26
+CURRENT_LAYOUT = 'fixed'     # = Layout.current in lean/MpVerif/C15/Model.lean (the order the main theorems are stated for)
 
 
 def run(ck):
@@ -489,11 +490,12 @@ def run(ck):
                        if c[3] == 'any' or (c[3] == 'ctor' and not cf) or (c[3] == 'reg' and not rf)]
     ck.log('store order observed in the real code: layout %s' % layout)
     ck.cov['layout_observed'] = layout
+    ck.cov['layout_of_main_theorems'] = CURRENT_LAYOUT
     ck.cov['claim_for_this_layout'] = {
-        'pinned': 'partial theorems + 3 open findings (ctor window, SetHandler window, across teardown)',
-        'ctorfix': 'C15_*_repaired (ctor) at full strength; SetHandler window and across-teardown findings remain',
-        'regfix': 'C15_pairing_repaired at full strength; ctor window and across-teardown findings remain',
-        'fixed': 'C15_*_repaired at full strength; only the across-teardown finding remains'}[layout]
+        'pinned': 'OLD store order (both repairs reverted): only C15_anyorder_* apply; ctor-window and SetHandler-window defects are back',
+        'ctorfix': 'SetHandler repair missing: C15_pairing does not apply, SetHandler-window defect is back',
+        'regfix': 'constructor repair missing: C15_no_lost / C15_no_early_exit / C15_third_exits_partial do not apply, ctor-window defect is back',
+        'fixed': 'main theorems C15_no_lost, C15_pairing, C15_no_early_exit (full) and C15_third_exits_partial apply; open finding: across teardown'}[layout]
     cases, enum_desc = gen_cases(ck)
     lines = [l for _, l in cases]
     ck.log('%d cases (%s)' % (len(lines), ', '.join('%s=%d' % (o, sum(1 for x, _ in cases if x == o))
@@ -584,6 +586,12 @@ def run(ck):
                           'correspondence': 'drv_c15 vs h_signal', 'oracle_on_this_case': verd,
                           'more_cases': [c for c, _, _, _ in corr_bad[1:6]]},
                          found_input=False)
+    if layout != CURRENT_LAYOUT and not ck.violations:
+        ck.add_violation('store-order:%s' % layout,
+                         'the real code performs the stores in order "%s" but the main theorems are stated for "%s" (Layout.current); '
+                         'no schedule violating the property was found in this run' % (layout, CURRENT_LAYOUT),
+                         {'observed_step_names': names, 'layout_observed': layout, 'layout_of_main_theorems': CURRENT_LAYOUT,
+                          'theorem': 'C15_no_lost / C15_pairing (hypothesis Layout.current)'}, found_input=False)
     if not proof_ok:
         for fdecl in failing:
             ck.add_violation('obligation:%s' % fdecl, 'proof obligation no longer checks: %s' % fdecl,
